@@ -101,4 +101,8 @@ def registry_restore(snap):
 
 def registry_fingerprint():
     import stix2.registry as r
-    return tuple(sorted((v, cat, name, id(cls)) for v, cats in r.STIX2_OBJ_MAPS.items() for cat, m in cats.items() for name, cls in m.items()))
+    # which class each name maps to, how many properties each class has, and - for extension classes - which top-level properties they contribute (tables that live
+    # in the registry through the classes: a change to them is a change of the registry)
+    return tuple(sorted((v, cat, name, id(cls), len(getattr(cls, "_properties", ())),
+                         tuple(sorted(getattr(cls, "_toplevel_properties", None) or ())) if cat == "extensions" else ())
+                        for v, cats in r.STIX2_OBJ_MAPS.items() for cat, m in cats.items() for name, cls in m.items()))
